@@ -217,5 +217,32 @@ pub fn cases(rng: &mut Rng, tier: &str, driver: &Driver) -> (Vec<Case>, bool) {
         }
         cases.push(Case { ops, checks, tag: chunk[0].1.to_string(), nontrivial: true, show: shows.join(" ; ") });
     }
+    // a variable is a leaf whatever its name: a scalar named like a built-in, or like a function a DEF has defined, read
+    // WITHOUT an argument list evaluates to its value (with one, it is the function)
+    let named: &[(&[&str], &[(&str, &str)])] = &[
+        (&["ABS = 5", "INT = 2.5", "RND = 0"], &[("PRINT ABS + 1", "6"), ("PRINT INT(INT) * INT", "5"), ("PRINT NOT ABS OR INT", "1"), ("PRINT ABS(0 - ABS) ^ 2", "25"), ("PRINT RND; ABS; INT", "052.5")]),
+        (&["10 DEF F(X) = X * 2", "20 F = 7", "30 FNA = 1", "40 DEF FNA(Y) = Y + FNA", "RUN"], &[("PRINT F + F(1)", "9"), ("PRINT F * 2", "14"), ("PRINT FNA(1) + FNA", "3"), ("PRINT F(F) - F", "7")]),
+    ];
+    for (setup, probes) in named {
+        let mut ops = vec!["new 0 0".to_string()];
+        let mut checks = vec![];
+        for l in setup.iter() {
+            ops.push(format!("start {}", hex(l)));
+            if *l == "RUN" {
+                // one host call per remaining line of the four-line program
+                for _ in 0..3 {
+                    ops.push("cont".to_string());
+                }
+            }
+        }
+        ops.push("take".to_string());
+        for (text, want) in probes.iter() {
+            ops.push(format!("start {}", hex(text)));
+            checks.push(format!("reply-is {} ok", ops.len() - 1));
+            ops.push("take".to_string());
+            checks.push(format!("reply-is {} P:{}", ops.len() - 1, hex(&format!("{}\n", want))));
+        }
+        cases.push(Case { ops, checks, tag: "variable-named-like-a-function".into(), nontrivial: true, show: format!("{} || {}", setup.join(" | "), probes.iter().map(|p| p.0).collect::<Vec<_>>().join(" | ")) });
+    }
     (cases, false)
 }
